@@ -232,33 +232,54 @@ func c09R3(c *core.Ctx) {
 	c.Rule(rule, "goroutine roots: every `go` statement in production code starts either a function whose entry defers a recover (Conn.Process via Close — C08.R1; async.Repeat's safeAction) or a root listed here; implementations of mesh.Gossiper are unrecovered roots and define the scope of R4", 5)
 	// async.Repeat: the action runs under a deferred recover
 	if f := fn(c, rule, "internal/async", "", "Repeat"); f != nil {
-		ok := false
-		for _, a := range f.AnonFuncs {
-			hasDefer := false
-			eng.Instrs(a, func(in ssa.Instruction) {
-				if d, isD := in.(*ssa.Defer); isD {
-					if h := d.Call.StaticCallee(); h != nil {
-						eng.Instrs(h, func(i2 ssa.Instruction) {
-							if _, isR := eng.IsBuiltinCall(i2, "recover"); isR {
-								hasDefer = true
-							}
-						})
+		// every call of a function value (the periodic action) anywhere in the package happens
+		// in a function that has registered, before the call, a deferred function that recovers
+		recovers := func(h *ssa.Function) bool {
+			found := false
+			if h != nil {
+				eng.Instrs(h, func(i2 ssa.Instruction) {
+					if _, isR := eng.IsBuiltinCall(i2, "recover"); isR {
+						found = true
 					}
-				}
-			})
-			callsAction := false
-			eng.Instrs(a, func(in ssa.Instruction) {
-				if call, isC := in.(*ssa.Call); isC && call.Call.StaticCallee() == nil && !call.Call.IsInvoke() {
-					if _, isB := call.Call.Value.(*ssa.Builtin); !isB {
-						callsAction = true
-					}
-				}
-			})
-			if hasDefer && callsAction {
-				ok = true
+				})
 			}
+			return found
 		}
-		c.Check(ok, rule, fnName(f)+":action under recover", f.Pos(), "periodic actions run under a deferred recover", "async.Repeat no longer runs its action under a deferred recover")
+		ok, nDyn := true, 0
+		var bad []string
+		for _, g := range c.P.ScopeFuncs() {
+			if g.Pkg != f.Pkg {
+				continue
+			}
+			eng.Instrs(g, func(in ssa.Instruction) {
+				call, isC := in.(*ssa.Call)
+				if !isC || call.Call.StaticCallee() != nil || call.Call.IsInvoke() {
+					return
+				}
+				if _, isB := call.Call.Value.(*ssa.Builtin); isB {
+					return
+				}
+				if sig, isSig := call.Call.Value.Type().Underlying().(*types.Signature); !isSig || sig.Params().Len() != 0 {
+					return
+				}
+				nDyn++
+				// a local closure variable (possibly captured by another closure) that only ever
+				// holds closures of this package is a static call in disguise: those closures are
+				// subject to this rule themselves
+				protected := onlyLocalClosures(call.Call.Value, 0)
+				eng.Instrs(g, func(i2 ssa.Instruction) {
+					if d, isD := i2.(*ssa.Defer); isD && recovers(d.Call.StaticCallee()) && eng.Dominates(d, call) {
+						protected = true
+					}
+				})
+				if !protected {
+					ok = false
+					bad = append(bad, fnName(g)+": "+eng.Describe(call))
+				}
+			})
+		}
+		ok = ok && nDyn > 0
+		c.Check(ok, rule, fnName(f)+":action under recover", f.Pos(), "periodic actions run under a deferred recover", fmt.Sprintf("a function value is called in package async without a deferred recover registered before it (calls found: %d, unprotected: %v)", nDyn, bad))
 	}
 	recovered := map[string]string{
 		"(*internal/broker.Conn).Process": "defers Conn.Close which recovers (C08.R1)",
@@ -537,4 +558,81 @@ func c09R6(c *core.Ctx) {
 			c.Check(len(impls) < 2, rule, fnName(f)+":unchecked assertion", ta.Pos(), "only one concrete crdt.Map exists", fmt.Sprintf("Merge asserts other.(%s) unconditionally but %v all implement crdt.Map: when the gossip sender coalesces a queued delta (volatile) with the full state of a broker whose subsets are durable (State.Merge used as GossipData.Merge), the assertion panics on the gossip goroutine", shortT(ta.AssertedType.String()), names))
 		})
 	}
+}
+
+// onlyLocalClosures: v (a function value) can only be a closure created in the enclosing
+// function chain: a MakeClosure, or a load of a local cell (directly or through a captured
+// variable) into which only MakeClosures are stored.
+func onlyLocalClosures(v ssa.Value, d int) bool {
+	if d > 4 {
+		return false
+	}
+	switch x := v.(type) {
+	case *ssa.MakeClosure:
+		return true
+	case *ssa.Function:
+		return x.Parent() != nil
+	case *ssa.UnOp:
+		if x.Op != token.MUL {
+			return false
+		}
+		cell := x.X
+		if fv, ok := cell.(*ssa.FreeVar); ok {
+			// the binding of this free variable at the closure's creation
+			fn := fv.Parent()
+			par := fn.Parent()
+			if par == nil {
+				return false
+			}
+			idx := -1
+			for i, f := range fn.FreeVars {
+				if f == fv {
+					idx = i
+				}
+			}
+			found := false
+			var bind ssa.Value
+			eng.Instrs(par, func(in ssa.Instruction) {
+				if mc, ok := in.(*ssa.MakeClosure); ok && mc.Fn == fn && idx >= 0 && idx < len(mc.Bindings) {
+					bind = mc.Bindings[idx]
+					found = true
+				}
+			})
+			if !found {
+				return false
+			}
+			cell = bind
+		}
+		a, ok := cell.(*ssa.Alloc)
+		if !ok {
+			return false
+		}
+		n := 0
+		okAll := true
+		var scan func(f *ssa.Function)
+		scan = func(f *ssa.Function) {
+			eng.Instrs(f, func(in ssa.Instruction) {
+				if st, ok := in.(*ssa.Store); ok && st.Addr == ssa.Value(a) {
+					n++
+					if !onlyLocalClosures(st.Val, d+1) {
+						okAll = false
+					}
+				}
+			})
+		}
+		scan(a.Parent())
+		// stores through captured references inside nested closures are not resolved: require
+		// that the cell is only read there
+		for _, anon := range eng.WithAnon(a.Parent())[1:] {
+			eng.Instrs(anon, func(in ssa.Instruction) {
+				if st, ok := in.(*ssa.Store); ok {
+					if fv, ok := st.Addr.(*ssa.FreeVar); ok && fv.Name() == a.Comment {
+						okAll = false
+					}
+				}
+			})
+		}
+		return okAll && n > 0
+	}
+	return false
 }
